@@ -313,12 +313,7 @@ Definition classify_fetch (items : str) (e : fenv) : option finding :=
   match fetch_plan items e with
   | None => None
   | Some plan =>
-      if contains (to_upper items) (S_ "FLAGS") then
-        match classify_flags (e_flags e) with
-        | Some f => Some f
-        | None => if contains (to_upper items) (S_ "ENVELOPE") then classify_headers (e_msg e) else None
-        end
-      else if contains (to_upper items) (S_ "ENVELOPE") then classify_headers (e_msg e) else None
+      if contains (to_upper items) (S_ "ENVELOPE") then classify_headers (e_msg e) else None
   end.
 
 (** ---- requests as a client writes them (RFC 3501 fetch-att) ---- *)
